@@ -362,6 +362,38 @@ V("f-im-dispatch-lex", "fire", ["C04", "C11"], IM, "            inference_instan
 V("f-im-dispatch-z", "fire", ["C02"], IM, "        inference_instance = SystemZ(epistemic_state)\n", "        inference_instance = PEntailment(epistemic_state)\n")
 V("f-im-dispatch-backend-test", "fire", ["C11", "C03"], IM, "        if epistemic_state[\"pmaxsat_solver\"] == \"z3\":\n            inference_instance = SystemWZ3(epistemic_state)\n", "        if epistemic_state[\"pmaxsat_solver\"] != \"z3\":\n            inference_instance = SystemWZ3(epistemic_state)\n")
 
+# ---------------------------------------------------------------------------------- rules added after the second seeding round
+CRV = "inference/c_revision.py"
+V("f-tpo2ranks-start1", "fire", ["C18"], PO, "    for layer_num, layer in enumerate(tpo):\n", "    for layer_num, layer in enumerate(tpo, start=1):\n")
+V("f-tpo2ranks-size", "fire", ["C18"], PO, "            ranks[world] = rank_function(layer_num)\n", "            ranks[world] = rank_function(len(layer))\n")
+V("s-tpo2ranks-range", "silent", ["C18"], PO, "    for layer_num, layer in enumerate(tpo):\n        for world in layer:\n            ranks[world] = rank_function(layer_num)\n",
+  "    for layer_num in range(len(tpo)):\n        for world in tpo[layer_num]:\n            ranks[world] = rank_function(layer_num)\n", note="index form of the same iteration")
+V("f-backend-suffix", "fire", ["C11"], OPT, "[4:]", "[3:]")
+V("f-backend-default-bad", "fire", ["C11"], OPT, "sat_solver = \"g3\"", "sat_solver = \"rc2\"")
+V("s-backend-default-other", "silent", ["C11"], OPT, "sat_solver = \"g3\"", "sat_solver = \"g4\"", note="another engine as default: answers do not depend on the engine")
+V("s-backend-prefix-form", "silent", ["C11"], OPT, "solver_name.startswith(\"rc2\")", "solver_name[:3] == \"rc2\"", note="prefix test written as a slice comparison")
+V("f-backend-prefix-wrong", "fire", ["C11"], OPT, "solver_name.startswith(\"rc2\")", "solver_name == \"rc2\"")
+V("s-getstate-local", "silent", ["C20"], PO, "        return self.__dict__.copy()\n", "        state = self.__dict__.copy()\n        return state\n")
+V("f-getstate-drop-impacts", "fire", ["C20"], PO, "        return self.__dict__.copy()\n", "        state = self.__dict__.copy()\n        state.pop(\"_impacts\", None)\n        return state\n")
+V("f-setstate-nothing", "fire", ["C20"], PO, "        self.__dict__.update(state)\n", "        self.__dict__.update({})\n")
+V("f-front-positions", "fire", ["C17"], CRV, "    minimize_vars = [f\"eta_{i}\" for i in belief_base.conditionals]\n", "    minimize_vars = [f\"eta_{i}\" for i in range(1, len(belief_base.conditionals) + 1)]\n")
+V("f-front-default", "fire", ["C17"], CRV, "sol.get(f\"eta_{i}\", 0)", "sol.get(f\"eta_{i}\", 1)")
+V("f-front-unprocessed", "fire", ["C17"], CRV, "    c_inf.preprocess_belief_base(0)\n    csp = c_inf.base_csp\n", "    csp = c_inf.base_csp\n    c_inf.preprocess_belief_base(0)\n")
+V("s-front-unsorted-local", "silent", ["C17"], CRV, "    indices = sorted(belief_base.conditionals.keys())\n", "    indices = sorted(belief_base.conditionals)\n")
+V("f-manager-swap-backends", "fire", ["C11"], IM, "            belief_base, inference_system, smt_solver, pmaxsat_solver, weakly\n", "            belief_base, inference_system, pmaxsat_solver, smt_solver, weakly\n")
+V("f-manager-drop-weakly", "fire", ["C07"], IM, "            belief_base, inference_system, smt_solver, pmaxsat_solver, weakly\n", "            belief_base, inference_system, smt_solver, pmaxsat_solver\n")
+V("s-manager-keywords", "silent", ["C07", "C11"], IM, "            belief_base, inference_system, smt_solver, pmaxsat_solver, weakly\n",
+  "            belief_base, inference_system, smt_solver=smt_solver, pmaxsat_solver=pmaxsat_solver, weakly=weakly\n")
+V("f-cinf-pre-no-nf", "fire", ["C05"], CI, "        tseitin_transformation.belief_base_to_cnf(True, True, True)\n", "        tseitin_transformation.belief_base_to_cnf(True, True, False)\n")
+V("f-cinf-pre-order", "fire", ["C05"], CI, "        self.compile_constraint(deadline)\n", "        self.base_csp = self.translate()\n        self.compile_constraint(deadline)\n", index=0)
+V("f-single-negative-budget", "fire", ["C14"], "inference/deadline.py", "        return Deadline(perf_counter() + max(0.0, seconds))\n",
+  "        if seconds < 0:\n            raise ValueError(\"negative duration\")\n        return Deadline(perf_counter() + seconds)\n")
+V("f-manager-sorted-rows", "fire", ["C13"], IM, "enumerate(queries.conditionals.items())", "enumerate(sorted(queries.conditionals.items()))")
+V("s-manager-sorted-rows-c14", "silent", ["C14", "C02"], IM, "enumerate(queries.conditionals.items())", "enumerate(sorted(queries.conditionals.items()))", note="row order is C13's clause only")
+V("f-rc2-empty-model", "fire", ["C15"], OPT, "                if model is None:\n", "                if not model:\n")
+V("f-import-narrow-handler", "fire", ["C20"], PO, "                impact_data = json.loads(raw)\n            except ValueError:\n", "                impact_data = json.loads(raw)\n            except json.JSONDecodeError:\n")
+V("s-import-wider-handler", "silent", ["C20"], PO, "                impact_data = json.loads(raw)\n            except ValueError:\n", "                impact_data = json.loads(raw)\n            except Exception:\n")
+
 
 def main():
     hv = os.path.join(HERE, "harvested.json")
